@@ -17,33 +17,83 @@ def StoreOK (g : G) : Prop :=
 
 def Init (g : G) : Prop := C04.Init g ∧ g.hist = [] ∧ g.wlog = [] ∧ g.done = []
 
+theorem finv {g0 g : G} (h0 : Init g0) (hr : Reachable g0 g) : FInv g.view :=
+  C04.finv h0.1 h0.2.2.2 hr
+
 /-- Every write attempt is stamped with a revision no other attempt ever receives. -/
 theorem deal_unique {g0 g : G} (h0 : Init g0) (hr : Reachable g0 g) :
     (g.done.map (·.rev)).Nodup ∧
     (∀ d ∈ g.done, ∀ c ∈ g.clients, C04.inflightRev c ≠ some d.rev) ∧
     (∀ c1 ∈ g.clients, ∀ c2 ∈ g.clients, ∀ r, C04.inflightRev c1 = some r → C04.inflightRev c2 = some r → c1 = c2) := by
-  sorry
+  obtain ⟨hs, hd⟩ := finv h0 hr
+  simp only [C04.inflightRev_eq]
+  refine ⟨hd.dNodup, ?_, hs.inflU⟩
+  intro d hdm c hc hi
+  exact hd.dHeld d hdm c hc (Pc.held_of_inflight hi)
 
 /-- Real-time order: if one request completed before another began, it has the smaller revision.
 (`endDealt`/`beginDealt` are ghost stamps of the monotone dealt counter at return / begin.) -/
 theorem realtime_order {g0 g : G} (h0 : Init g0) (hr : Reachable g0 g) (a b : Done)
     (ha : a ∈ g.done) (hb : b ∈ g.done) (hab : a.endDealt ≤ b.beginDealt) : a.rev < b.rev := by
-  sorry
+  have hd := (finv h0 hr).2
+  have h1 := hd.dR a ha
+  have h2 := hd.dR b hb
+  omega
 
 /-- ... and the stamps are faithful: a request's own revision lies strictly above the counter at its
 begin and at or below the counter at its end. -/
 theorem stamps_bracket {g0 g : G} (h0 : Init g0) (hr : Reachable g0 g) (d : Done) (hd : d ∈ g.done) :
-    d.beginDealt < d.rev ∧ d.rev ≤ d.endDealt ∧ d.endDealt ≤ g.dealt := by
-  sorry
+    d.beginDealt < d.rev ∧ d.rev ≤ d.endDealt ∧ d.endDealt ≤ g.dealt :=
+  (finv h0 hr).2.dR d hd
+
+theorem hdrOf_mono (n : Nat) (kvs : List (Bytes × Bytes × Nat)) : n ≤ hdrOf n kvs := by
+  unfold hdrOf
+  induction kvs generalizing n with
+  | nil => exact Nat.le_refl _
+  | cons x xs ih => exact Nat.le_trans (Nat.le_max_left _ _) (ih _)
+
+/-- The header of a range response is at least the revision of every kv it carries. -/
+theorem hdrOf_ge (n : Nat) (kvs : List (Bytes × Bytes × Nat)) : ∀ kv ∈ kvs, kv.2.2 ≤ hdrOf n kvs := by
+  induction kvs generalizing n with
+  | nil => intro kv h; cases h
+  | cons x xs ih =>
+    intro kv h
+    rcases List.mem_cons.mp h with rfl | h
+    · exact Nat.le_trans (Nat.le_max_right n _) (hdrOf_mono _ xs)
+    · exact ih _ kv h
 
 /-- Point read: header = max(committed, mod revision). -/
 theorem get_header_ge_data (c : Cfg) (s : BState) (key : Bytes) (rev : Nat) (k v : Bytes) (m : Nat)
     (h : (doGet c s key rev).2 = some (k, v, m)) : m ≤ (doGet c s key rev).1 := by
-  sorry
+  unfold doGet at h ⊢
+  split at h
+  · cases h
+  · rename_i v' m' heq
+    simp only [Option.some.injEq, Prod.mk.injEq] at h
+    obtain ⟨_, _, rfl⟩ := h
+    exact Nat.le_max_right _ _
 
 /-- Range read. -/
 theorem list_header_ge_data (c : Cfg) (s : BState) (a b : Bytes) (R n : Nat) (res : ListRes)
     (h : doList c s a b R n = .ok res) : ∀ kv ∈ res.kvs, kv.2.2 ≤ res.hdr := by
-  sorry
+  unfold doList at h
+  split at h
+  · cases h
+  · simp only at h
+    split at h
+    · cases h
+    · split at h
+      · split at h
+        · cases h
+          intro kv hkv
+          exact hdrOf_ge _ _ kv hkv
+        · cases h
+        · cases h
+      · split at h
+        · cases h
+          intro kv hkv
+          exact hdrOf_ge _ _ kv hkv
+        · cases h
+        · cases h
 
 end KB.C02
